@@ -1,7 +1,10 @@
 package main
 
 import (
+	"time"
+
 	"fmt"
+	"golang.org/x/sys/unix"
 	"os"
 	"path/filepath"
 	"sort"
@@ -316,6 +319,7 @@ func c01Run(c *core.Ctx) *core.Result {
 	r.FP = src.Fingerprint() + prior.Fingerprint() + cfg
 	r.AddSet("configs", cfg)
 
+	farPath, farSec, farNsec := "", int64(0), int64(0)
 	srcDir := filepath.Join(c.Dir, "src")
 	dest := filepath.Join(c.Dir, "dest")
 	os.Mkdir(srcDir, 0755)
@@ -343,6 +347,24 @@ func c01Run(c *core.Ctx) *core.Result {
 		if err := tree.Materialise(srcDir, onDisk); err != nil {
 			r.Inconclusive = "materialise src: " + err.Error()
 			return r
+		}
+		// a time stamp that an int64 count of nanoseconds cannot hold (before
+		// 1677 or after 2262; ext4, xfs, btrfs and tmpfs store them): the wire
+		// format has nothing else, see known finding K10. Read and compared as
+		// a (sec, nsec) pair, the tree model cannot hold it either.
+		if fr := core.NewRand(core.Mix(c.Seed, "C01-far-mtime", c.Index)); fr.P(1, 40) && !merge {
+			for _, e := range onDisk.Entries {
+				if e.Type == tree.File && e.LinkTo == "" && onDisk.GroupOf(e.Path) == "" {
+					sec := core.Pick(fr, []int64{10413792000, 9223372037, -11644473600, 9224000000})
+					ts := []unix.Timespec{{Sec: sec, Nsec: 5}, {Sec: sec, Nsec: 5}}
+					if unix.UtimesNanoAt(unix.AT_FDCWD, filepath.Join(srcDir, filepath.FromSlash(e.Path)), ts, unix.AT_SYMLINK_NOFOLLOW) == nil {
+						farPath = e.Path
+						farSec, farNsec, _ = lstatPair(filepath.Join(srcDir, filepath.FromSlash(e.Path)))
+						r.Count("sources_with_an_mtime_outside_the_int64_ns_window", 1)
+					}
+					break
+				}
+			}
 		}
 		var err error
 		view, err = tree.Snapshot(srcDir, tree.SnapOpt{})
@@ -513,6 +535,18 @@ func c01Run(c *core.Ctx) *core.Result {
 						e.Data = view.Entries[k].Data
 					}
 				}
+			}
+		}
+	}
+	if farPath != "" {
+		if s, n, err := lstatPair(filepath.Join(dest, filepath.FromSlash(farPath))); err == nil && (s != farSec || n != farNsec) {
+			r.ViolateD("mtime-outside-int64-ns", map[string]any{"path": farPath}, "%q has mtime (sec=%d, nsec=%d) = %s in the source and (sec=%d, nsec=%d) = %s in the destination after both calls returned nil", farPath, farSec, farNsec, time.Unix(farSec, farNsec).UTC().Format(time.RFC3339Nano), s, n, time.Unix(s, n).UTC().Format(time.RFC3339Nano))
+		}
+		// (the int64 model wraps the same way on both sides: that column is
+		// decided by the pair comparison above)
+		for _, t := range []*tree.Tree{exp, got} {
+			if e := t.Get(farPath); e != nil {
+				e.Mtime = 0
 			}
 		}
 	}
